@@ -125,6 +125,9 @@ pub struct FaultPlan {
     /// max consecutive Interrupted the simulator will inject (so that "faults stop")
     #[serde(default)]
     pub eintr_cap: usize,
+    /// the file's content is cut at this byte when opened (lost tail / torn write)
+    #[serde(default)]
+    pub truncate: Option<usize>,
 }
 
 impl FaultPlan {
@@ -134,6 +137,7 @@ impl FaultPlan {
     pub fn is_clean(&self) -> bool {
         self.opens.iter().all(|o| o.is_none())
             && self.flips.is_empty()
+            && self.truncate.is_none()
             && self.parent == ParentMode::TraitDefault
             && self
                 .reads
@@ -144,6 +148,7 @@ impl FaultPlan {
     pub fn is_benign(&self) -> bool {
         self.opens.iter().all(|o| o.is_none())
             && self.flips.is_empty()
+            && self.truncate.is_none()
             && self.parent == ParentMode::TraitDefault
             && self.reads.iter().all(|r| match r {
                 ReadAct::Give(_) => true,
@@ -290,6 +295,12 @@ impl FileReader<SimRead> for SimFileReader {
                     if pos < data.len() {
                         data[pos] ^= 1u8 << (bit & 7);
                         fire(&mut sh, "flip");
+                    }
+                }
+                if let Some(t) = sh.plan.truncate {
+                    if t < data.len() {
+                        data.truncate(t);
+                        fire(&mut sh, "truncate");
                     }
                 }
                 sh.stats.body_len += data.len();
